@@ -160,10 +160,24 @@ def never_raises(ctx):
     cc = [c for c in calls_in(g.node) if isinstance(c.func, ast.Name) and c.func.id == 'cleanup']
     if not cc:
         raise AnchorMissing('cleanup(self) call not found in _cleanup')
+    gcfg = CFG(g.node, m, g.module)
     for c in cc:
         t, h = contained_by_catch_all(c)
         ctx.check(t is not None and not handler_reraises(h), f'{g.qualname}:cleanup call contained', c,
                   'inside try/except Exception without re-raise', 'an exception in the cleanup function propagates out of cycle()', g)
+        # what _cleanup hands back becomes the next state function: None or a callable, whatever the cleanup function returned
+        st = enclosing_stmt(c)
+        if isinstance(st, ast.Assign) and len(st.targets) == 1 and isinstance(st.targets[0], ast.Name) and st.value is c:
+            nm = st.targets[0].id
+            bad = value_returned_under(gcfg, g.node, st, nm, {f'{nm} is None': False, f'callable({nm})': False})
+            ctx.check(not bad, f'{g.qualname}:hands back None or a callable only', bad[0] if bad else st,
+                      'a result of the cleanup function that is neither None nor callable never reaches a return',
+                      f'`{src(bad[0]) if bad else ""}` is reached with `{nm}` still holding a result of the cleanup function that is neither None nor callable '
+                      '(e.g. a string): it becomes the state function, every later cycle() raises, the machine never gets inactive and a pending start is never entered', g)
+        elif isinstance(st, ast.Return):
+            ctx.bad(f'{g.qualname}:hands back None or a callable only', st, 'the result of the cleanup function is returned unchecked', g)
+        else:
+            ctx.undecided(f'{g.qualname}:hands back None or a callable only', st, 'use of the result of the cleanup function not recognised', g)
 
 
 @rule('C14.R3', min_instances=3)
@@ -449,6 +463,37 @@ def each_run_starts_clean(ctx):
     dflt = [i for c in calls_in(s.node) if call_attr(c) == 'setdefault' and c.args and isinstance(c.args[0], ast.Constant) and c.args[0].value == 'cleanup'
             and (len(c.args) < 2 or (isinstance(c.args[1], ast.Constant) and c.args[1].value is None)) for i in cfgs.node_of(c)]
     posts = [i for t, v, st in attr_stores(s.node) if t.attr == 'next_task' for i in cfgs.node_of(st)]
-    ctx.check(bool(dflt) and all(cfgs.dominates(dflt, i) for i in posts), f'{s.qualname}:cleanup defaults to None for every start', s.node,
-              "kwds.setdefault('cleanup', None) before the task is posted",
-              'a start without cleanup keyword inherits the cleanup function of the previous run: it is executed for a run that never asked for it', s)
+    key = f'{s.qualname}:cleanup defaults to None for every start'
+    msg = 'a start without cleanup keyword inherits the cleanup function of the previous run: it is executed for a run that never asked for it'
+    if dflt and all(cfgs.dominates(dflt, i) for i in posts):
+        ctx.ok(key, s.node, "kwds.setdefault('cleanup', None) before the task is posted", s)
+    else:
+        # the default may be applied where the request object is built (Start.__init__)
+        units = [s]
+        for c in calls_in(s.node):
+            ci = m.classes.get(m.resolve_name(s.module, dotted(c.func) or '') or '')
+            if ci is not None and '__init__' in ci.methods:
+                units.append(ci.methods['__init__'])
+        verdict = None
+        for u in units[1:]:
+            ctx.analysed(u)
+            ucfg = CFG(u.node, m, u.module)
+            sd = [i for c in calls_in(u.node) if call_attr(c) == 'setdefault' and c.args and isinstance(c.args[0], ast.Constant) and c.args[0].value == 'cleanup'
+                  and (len(c.args) < 2 or (isinstance(c.args[1], ast.Constant) and c.args[1].value is None)) for i in ucfg.node_of(c)]
+            if sd and ucfg.all_paths_pass([ucfg.entry], [ucfg.exit], sd, exc=False):
+                verdict = ('ok', u, f"setdefault('cleanup', None) on every path through {u.qualname}")
+            for d in [x for x in body_walk(u.node) if isinstance(x, ast.Dict)]:
+                ks = [k.value if isinstance(k, ast.Constant) else None for k in d.keys]
+                if 'cleanup' in ks and None in d.keys and ks.index('cleanup') < d.keys.index(None) and isinstance(getattr(d, 'parent', None), ast.Assign):
+                    verdict = verdict or ('ok', u, "{'cleanup': None, **kwds}")
+        mentions = [x for u in units for x in body_walk(u.node) if isinstance(x, ast.Constant) and x.value == 'cleanup']
+        partial = [x for u in units for x in body_walk(u.node) if isinstance(x, ast.BoolOp) and isinstance(x.op, ast.Or) and
+                   any(isinstance(k, ast.Constant) and k.value == 'cleanup' for v in x.values[1:] for k in ast.walk(v))]
+        if verdict and not partial:
+            ctx.ok(key, verdict[1].node, verdict[2], s)
+        elif partial:
+            ctx.bad(key, partial[0], f'`{src(partial[0])}` applies the default only when NO attribute at all is given: ' + msg, s)
+        elif not mentions:
+            ctx.bad(key, s.node, msg, s)
+        else:
+            ctx.undecided(key, mentions[0], 'the way the cleanup default is applied was not recognised', s)
